@@ -11,21 +11,37 @@ RULE = ("directive strings: every directive of the running _directive_defaults/d
         "relaxed_bool x ignore_unknown x current_settings; distinct by (flags, text). nestings: generated "
         "module/class/cdef class/def/nested def/with trees with random settings of cdivision, boundscheck, wraparound, "
         "binding, always_allow_keywords, overflowcheck at header/command-line/decorator/with level, a probe in every "
-        "body, after every with block and in every sibling; distinct by (program, probe); scope legality: every "
-        "(directive, scope) pair of the running directive_scopes table compiled")
+        "body, after every with block and in every sibling; distinct by (program, probe); placement matrix: for each "
+        "directive with an observer (boundscheck, wraparound, cdivision, overflowcheck, nonecheck, infer_types, binding, "
+        "always_allow_keywords, embedsignature, profile) every placement pattern (decorator on def / on def in class / in "
+        "cdef class, on class, on cdef class, on outer def, depth 2, first-decorator-wins, with around def / class / "
+        "statements / in class body, with in with, with in decorated def, each with an overriding inner setting and an "
+        "untouched sibling) under none/option/header/both module-level settings, every def observed; distinct by "
+        "(module, function or probe, observed directive); tables: every name of the running immediate set and every "
+        "(directive, scope) pair against the documented tables; scope legality: every (directive, scope) pair of the "
+        "running and documented directive_scopes tables compiled (quick: a sample plus every pair where they differ)")
 EXPLANATION = ("theorems: parse_directive_value/list return exactly the documented value of the text or an error, "
                "for every code-point string, flag combination and type table (declarative last-assignment-wins "
                "characterisation of the list parser); the dict copied and updated while descending equals "
                "'innermost enclosing explicit legal setting, else header, else options, else default' for every "
                "tree, path and inherited directive; the transform's current dict is restored after every node and a "
                "probe's value depends only on its ancestors (no leak to siblings or outward); a setting illegal in "
-               "its scope is reported and never applied (general + finite check over the generated table). "
+               "its scope is reported and never applied (general + finite check over the generated table); the running "
+               "immediate_decorator_directives equals the documented list of signature/type decorators, contains no "
+               "behaviour directive and only scope-restricted ones, directive_scopes equals the documented placement "
+               "table (finite, by computation over the dump), hence on the running tables every behaviour directive "
+               "obeys the rule with an EMPTY immediate set (class/def decorators inherited by everything enclosed), and "
+               "a decorated object always sees its own decorators while its contents do unless the directive is immediate. "
                "partial: CPython's int(), str.strip/lower and codecs lookup are modelled contracts compared "
                "differentially; the C code generated under a directive is observed by behaviour only.")
 TRUSTED = ["CPython int(str), str.strip(), str.lower(), codecs.getdecoder: Gallina transcription of the documented "
            "contract (M_Directives.py_int/py_isspace/lower, codec oracle passed in), compared against the running "
            "interpreter (py_isspace and the lower() assumption exhaustively over all code points)",
            "tables Gen_Directives.v dumped from the running Options module (types introspected through closures)",
+           "documented tables doc_immediate / doc_behaviour / doc_scopes in M_DirectivesDoc.v (hand-written from the docs "
+           "and the comments of Options.py; the scope-legality oracle reads them through the extracted model)",
+           "observers of the placement matrix (INT_MAX+1, attribute of a None-valued cdef-class variable, cython.typeof, "
+           "__doc__, sys.setprofile call events), calibrated by the pattern that decorates the observed def directly",
            "behavioural observers of the generated code (-7//2, bytes index -1 / 4 on a never-hashed 4-byte object, "
            "type(f).__name__, f(ctx=...), type and length of a coerced char*)"]
 ASSUMPTIONS = ["decorator/with arguments are compile-time literals of the directive's type (other forms are "
@@ -783,6 +799,7 @@ def run_nesting(ctx, T):
     quick = ctx.tier == "quick"
     model = ctx.model("directives")
     progs = [gen_program(ctx, i, T) for i in range(3 if quick else 24)]
+    mx_specs, mx_finish = run_matrix(ctx, T, None)
     wd = os.path.join(ctx.workdir, "nest")
     # command-line/cythonize options arrive as already-parsed values; enum/encoding options go through the same
     # normalisation as `cython -X` (parse_directive_list with relaxed_bool) in the oracle and in the model
@@ -793,7 +810,9 @@ def run_nesting(ctx, T):
         if opts.get("c_string_encoding") == "default": opts["c_string_encoding"] = "utf8"
         p["options_parsed"] = opts
         specs.append(dict(name=p["name"], source=p["source"], workdir=wd, directives=opts))
-    built = cybuild.build_many(specs, jobs=8)
+    built = cybuild.build_many(mx_specs + specs, jobs=8)
+    mx_finish(built[:len(mx_specs)])          # the placement matrix first: its failing inputs are the small ones
+    built = built[len(mx_specs):]
     for p, (so, err) in zip(progs, built):
         inp = {"program": p["name"], "options": p["options"], "header": p["header_lines"]}
         if err is not None:
@@ -891,6 +910,337 @@ def run_nesting(ctx, T):
                         ctx.fail("effective_value_always_allow_keywords", dict(pin, source=p["source"]), o, {"always_allow_keywords": env_f["always_allow_keywords"]})
 
 
+
+# ---------------------------------------------------------------- placement matrix, every observable directive
+# Observers (calibrated by the first pattern, a decorator written directly on the observed def):
+#   statement level   : boundscheck s[4], wraparound s[-1], cdivision -7//2, overflowcheck INT_MAX+1, nonecheck None.attr
+#   function body     : infer_types  (cython.typeof of `x = 1; x = x + 1` and of `x = 1.5`: None / True / False differ)
+#   function object   : binding (type of the function object), always_allow_keywords (f(ctx=..)), embedsignature
+#                       (__doc__), profile (sys.setprofile sees a call event)
+MX_STMT = ["boundscheck", "wraparound", "cdivision", "overflowcheck", "nonecheck"]
+MX_BODY = MX_STMT + ["infer_types"]
+# parents under which the function-object observers react at all: M module, C Python class, X cdef class, F nested def
+# (methods of Python classes are always CyFunctions accepting keywords; signatures are not embedded for nested defs)
+MX_FUNC = {"binding": "MXF", "always_allow_keywords": "MXF", "embedsignature": "MCX", "profile": "MCXF"}
+MX_ALL = MX_BODY + list(MX_FUNC)
+
+MX_PRELUDE = """cimport cython
+cdef class _NC:
+    cdef public int x
+CTX = (bytes(bytearray(b"abcd")), -7, 2, 2147483647, None)
+REG = []
+"""
+
+RUN_MX = r"""
+import sys, json, importlib
+name = sys.argv[1]
+m = importlib.import_module(name)
+probes, funcs = {}, {}
+def handle(i, raw, bound):
+    seen = []
+    def cb(frame, ev, arg):
+        if ev == 'call': seen.append(frame.f_code.co_name)
+    try:
+        bound(ctx=m.CTX); kw = True
+    except TypeError:
+        kw = False
+    sys.setprofile(cb)
+    try:
+        r = bound(m.CTX)
+    finally:
+        sys.setprofile(None)
+    funcs[i] = [type(raw).__name__, kw, ('f_%s(' % i) in (raw.__doc__ or ''), ('f_%s' % i) in seen]
+    for k, v in r.items():
+        if k[0] == 'p': probes[k] = v
+        else: handle(k[1:], v, v)
+for ent in m.REG:
+    if ent[0] == 'f':
+        handle(str(ent[1]), ent[2], ent[2])
+    else:
+        inst = ent[2]()
+        for j in ent[3]:
+            handle(str(j), ent[2].__dict__['f_%d' % j], getattr(inst, 'f_%d' % j))
+print(json.dumps({"probes": probes, "funcs": funcs}))
+"""
+
+
+def mx_node(k, sets=(), ch=(), obs=()):
+    return {"k": k, "id": 0, "sets": [list(x) for x in sets], "ch": list(ch), "obs": list(obs)}
+
+
+MX_QUICK = {"decorator on def", "decorator on def in cdef class", "decorator on class", "decorator on cdef class",
+            "decorator on outer def", "first decorator wins", "with around def", "with around statements",
+            "with in decorated def"}
+
+
+def mx_patterns(d, v, extra, quick=False):
+    """the placements of one directive setting d=v (nv = the opposite value): list of (name, forest);
+    the quick tier keeps the MX_QUICK placements"""
+    nv = not v
+    S, N = [(d, v)], [(d, nv)]
+    po = ([d] if d in MX_BODY else []) + [x for x in extra if x != d]
+
+    def P(): return mx_node("P", obs=po)
+    def F(sets=(), ch=()): return mx_node("F", sets, list(ch) + [P()])
+    def C(sets=(), ch=()): return mx_node("C", sets, ch)
+    def X(sets=(), ch=()): return mx_node("X", sets, ch)
+    def W(sets, ch): return mx_node("W", sets, ch)
+    pats = [
+        ("decorator on def", [F(S), F()]),
+        ("decorator on def in class", [C([], [F(S), F(), F(N)])]),
+        ("decorator on def in cdef class", [X([], [F(S), F(), F(N)])]),
+        ("decorator on class", [C(S, [F(), F(N), F()]), F()]),
+        ("decorator on cdef class", [X(S, [F(), F(N), F()]), F()]),
+        ("decorator on outer def", [F(S, [F(), F(N), F()]), F()]),
+        ("decorator on class, def in def in class", [C(S, [F([], [F()])])]),
+        ("decorator on cdef class, def in def in cdef class", [X(S, [F([], [F(N, [F()])])])]),
+        ("first decorator wins", [F(S + N), X(N + S, [F()])]),
+        ("with around def", [W(S, [F(), F(N)]), F()]),
+        ("with around class", [W(S, [C([], [F()]), C(N, [F()])])]),
+        ("with in class body", [C([], [W(S, [F()]), F()])]),
+        ("with in with around def", [W(S, [W(N, [F()]), F()])]),
+        ("decorator on def in with", [W(S, [F(N, [F()])])]),
+    ]
+    if d in MX_STMT:
+        pats += [
+            ("with around statements", [F([], [W(S, [P()]), P()])]),
+            ("with in with around statements", [F([], [W(S, [W(N, [P()]), P()]), P()])]),
+            ("with in decorated def", [F(S, [W(N, [P()]), P()])]),
+            ("with around statements in method of decorated cdef class", [X(S, [F([], [W(N, [P()])])])]),
+        ]
+    return [x for x in pats if not quick or x[0] in MX_QUICK]
+
+
+def mx_number(nodes, counter):
+    for nd in nodes:
+        counter[0] += 1
+        nd["id"] = counter[0]
+        mx_number(nd["ch"], counter)
+
+
+def mx_methods(nodes):
+    """ids of the defs of a class body (directly or inside with blocks)"""
+    out = []
+    for nd in nodes:
+        if nd["k"] == "F": out.append(nd["id"])
+        elif nd["k"] == "W": out += mx_methods(nd["ch"])
+    return out
+
+
+def mx_lit(v):
+    return repr(v)
+
+
+def emit_mx(nodes, ind, ctxkind, L):
+    pad = "    " * ind
+    for nd in nodes:
+        k, i = nd["k"], nd["id"]
+        if k == "P":
+            items = []
+            for o in nd["obs"]:
+                if o == "cdivision":
+                    items.append("'cdivision': a // b")
+                elif o in ("wraparound", "boundscheck"):
+                    L += [pad + "try: _%s = s[%s]" % (o[0], "i" if o == "wraparound" else "j"), pad + "except IndexError: _%s = 'E'" % o[0]]
+                    items.append("'%s': _%s" % (o, o[0]))
+                elif o == "overflowcheck":
+                    L += [pad + "try: _o = big + one", pad + "except OverflowError: _o = 'E'"]
+                    items.append("'overflowcheck': _o")
+                elif o == "nonecheck":
+                    L += [pad + "try:", pad + "    _n = nc.x", pad + "    _n = 'V'", pad + "except AttributeError: _n = 'E'"]
+                    items.append("'nonecheck': _n")
+                elif o == "infer_types":
+                    L += [pad + "x1_%d = 1" % i, pad + "x1_%d = x1_%d + 1" % (i, i), pad + "x2_%d = 1.5" % i]
+                    items.append("'infer_types': (cython.typeof(x1_%d), cython.typeof(x2_%d))" % (i, i))
+            L.append(pad + "out['p%d'] = {%s}" % (i, ", ".join(items)))
+        elif k == "W":
+            L.append(pad + "with %s:" % ", ".join("cython.%s(%s)" % (n, mx_lit(v)) for n, v in nd["sets"]))
+            emit_mx(nd["ch"], ind + 1, ctxkind, L)
+        elif k == "F":
+            for n, v in nd["sets"]:
+                L.append(pad + "@cython.%s(%s)" % (n, mx_lit(v)))
+            L.append(pad + ("def f_%d(self, ctx):" if ctxkind == "C" else "def f_%d(ctx):") % i)
+            L += [pad + "    cdef bytes s = ctx[0]", pad + "    cdef int a = ctx[1], b = ctx[2], i = -1, j = 4, big = ctx[3], one = 1",
+                  pad + "    cdef _NC nc = ctx[4]", pad + "    out = {}"]
+            emit_mx(nd["ch"], ind + 1, "F", L)
+            L.append(pad + "    return out")
+            if ctxkind == "M":
+                L.append(pad + "REG.append(('f', %d, f_%d))" % (i, i))
+            elif ctxkind == "F":
+                L.append(pad + "out['g%d'] = f_%d" % (i, i))
+        else:
+            for n, v in nd["sets"]:
+                L.append(pad + "@cython.%s(%s)" % (n, mx_lit(v)))
+            L.append(pad + ("cdef class K_%d:" if k == "X" else "class K_%d:") % i)
+            emit_mx(nd["ch"], ind + 1, "C", L)
+            L.append(pad + "REG.append(('c', %d, K_%d, %r))" % (i, i, mx_methods(nd["ch"])))
+
+
+MX_DECODE = {
+    "cdivision": {-3: True, -4: False},
+    "wraparound": {100: True, "E": False, 255: False},
+    "boundscheck": {"E": True, 0: False},
+    "overflowcheck": {"E": True, -2147483648: False},
+    "nonecheck": {"E": True, "V": False},
+    "infer_types": {("int object", "double"): None, ("long", "double"): True, ("Python object", "Python object"): False},
+}
+
+
+def mx_decode(d, raw):
+    if isinstance(raw, list):
+        raw = tuple(raw)
+    try:
+        return MX_DECODE[d].get(raw, "UNDECODABLE")
+    except TypeError:
+        return "UNDECODABLE"
+
+
+def mx_source(header_lines, forest):
+    L = ["# generated by props/C41.py (placement matrix)", "#"] + ["# cython: %s" % h for h in header_lines] + [MX_PRELUDE]
+    emit_mx(forest, 0, "M", L)
+    return "\n".join(L) + "\n"
+
+
+def gen_matrix(ctx, idx, dirs, T, both_polarities, quick=False):
+    """one module: header/options chosen per directive (none / option / header / both, opposite), then every
+    placement pattern of every directive in dirs with the value that differs from the module-level one"""
+    rng = ctx.rng
+    options, header = {}, {}
+    for n, d in enumerate(MX_ALL):
+        c, val = (n + idx) % 4, rng.random() < 0.5
+        if c == 1: options[d] = val
+        elif c == 2: header[d] = val
+        elif c == 3: options[d], header[d] = (not val), val
+    mv = {d: header.get(d, options.get(d, T["defaults"][d])) for d in MX_ALL}
+    hitems = ["%s=%s" % (k, v) for k, v in header.items()]
+    rng.shuffle(hitems)
+    cut = rng.randrange(len(hitems) + 1)
+    hlines = [x for x in (", ".join(hitems[:cut]), ",".join(hitems[cut:])) if x]
+    forest, groups, counter = [], [], [0]
+    for n, d in enumerate(dirs):
+        flip = (not mv[d]) if mv[d] is not None else (rng.random() < 0.5)
+        vals = [flip] + ([mv[d]] if both_polarities and mv[d] is not None else [])
+        for v in vals:
+            extra = [MX_STMT[(n + idx + int(v)) % len(MX_STMT)]]
+            for pname, pf in mx_patterns(d, v, extra, quick):
+                mx_number(pf, counter)
+                groups.append({"directive": d, "value": v, "pattern": pname, "forest": pf})
+                forest += pf
+    return {"name": "c41_m%d" % idx, "source": mx_source(hlines, forest), "options": options, "header_lines": hlines,
+            "header": header, "mv": mv, "body": forest, "groups": groups}
+
+
+def model_visit(ctx, model, inp, options, header_lines, q, body):
+    """header text through the model's parse_directive_list, then visit_module -> (module values, per-node values)"""
+    hdr = {}
+    for h in header_lines:
+        ml = model.batch(["pl %d 0 1 - %s -" % (STRICT, enc(h))])[0]
+        if not ml.startswith("OK "):
+            ctx.corr_break("directives:header-parse", inp, h, ml)
+        else:
+            hdr.update(dec_dict(ml[3:]))
+    line = "vm %s %s %s %s" % (enc_dict(options), enc_dict(hdr), ";".join(enc(x) for x in q), " ".join(tokens(body)))
+    mo = model.batch([line])[0].split(" ")
+    if not mo[0].startswith("M:") or mo[-1] != "S:1" or mo[-2] != "R:":
+        ctx.corr_break("directives:visit_module", inp, "accepted program", mo[-3:])
+        return None
+    dv = lambda x: None if x in ("?", "N") else dec_val(x)
+    mvals = dict(zip(q, [dv(x) for x in mo[0][2:].split("~")]))
+    mnode = {}
+    for nd, tok in zip(preorder(body, []), mo[1:-2]):
+        if tok.startswith("P:"):
+            mnode["p%d" % nd["id"]] = dict(zip(q, [dv(x) for x in tok[2:].split("~")]))
+        else:
+            a, b = tok[2:].split("/")
+            mnode["n%d" % nd["id"]] = (dict(zip(q, [dv(x) for x in a.split("~")])), dict(zip(q, [dv(x) for x in b.split("~")])))
+    return mvals, mnode
+
+
+def run_matrix(ctx, T, built_later):
+    """returns (specs, finish): the build specs of the matrix modules and the function that evaluates them"""
+    quick = ctx.tier == "quick"
+    wd = os.path.join(ctx.workdir, "matrix")
+    if quick:
+        order = list(MX_ALL)
+        ctx.rng.shuffle(order)
+        progs = [gen_matrix(ctx, i, order[i::2], T, False, quick=True) for i in range(2)]
+    else:
+        progs = [gen_matrix(ctx, i, MX_ALL[(i % 2)::2], T, True) for i in range(8)]
+    specs = [dict(name=p["name"], source=p["source"], workdir=wd, directives=dict(p["options"]), cflags=["-O0"]) for p in progs]
+
+    def finish(built):
+        model = ctx.model("directives")
+        for p, (so, err) in zip(progs, built):
+            inp = {"program": p["name"], "options": p["options"], "header": p["header_lines"], "matrix": True}
+            if err is not None:
+                ctx.corr_break("directives:matrix-build", inp, str(err)[-1500:], "module builds")
+                continue
+            r = cybuild.run_script(RUN_MX, wd, name="run_mx.py", args=[p["name"]])
+            if r["json"] is None:
+                ctx.corr_break("directives:matrix-run", inp, (r["err"] or r["out"])[-1200:], "module runs")
+                continue
+            obs = r["json"]
+            mv = model_visit(ctx, model, inp, p["options"], p["header_lines"], MX_ALL, p["body"])
+            if mv is None:
+                continue
+            mvals, mnode = mv
+            for d in MX_ALL:                     # module level: header, else option, else default
+                ctx.case("matrix/module value", dict(inp, directive=d), sig=(p["name"], "mv", d))
+                if mvals[d] != p["mv"][d]:
+                    ctx.corr_break("directives:matrix module value", dict(inp, directive=d), p["mv"][d], mvals[d])
+            spec = {}
+            spec_walk(p["body"], dict(p["mv"]), "M", spec)
+            for g in p["groups"]:
+                d = g["directive"]
+                ginp = {"program": p["name"] + "_min", "matrix": True, "options": p["options"], "header": p["header_lines"],
+                        "directive": d, "value": g["value"], "placement": g["pattern"]}
+                src = None
+                for nd in preorder(g["forest"], []):
+                    i = nd["id"]
+                    if nd["k"] == "P":
+                        key = "p%d" % i
+                        o = obs["probes"].get(key)
+                        for od in nd["obs"]:
+                            pin = dict(ginp, probe=key, observed_directive=od)
+                            ctx.case("matrix/%s/%s" % (g["pattern"], "probe"), pin, sig=(p["name"], key, od))
+                            got = mx_decode(od, (o or {}).get(od, "MISSING"))
+                            if got != mnode[key][od]:
+                                ctx.corr_break("directives:matrix effective " + od, pin, o, mnode[key][od])
+                            if got != spec[key][od]:
+                                src = src or mx_source(p["header_lines"], g["forest"])
+                                ctx.fail("effective_value_" + od, dict(pin, source=src), o, {od: spec[key][od]})
+                    elif nd["k"] == "F":
+                        o = obs["funcs"].get(str(i))
+                        env_f, parent = spec["f%d" % i]
+                        mnd = mnode["n%d" % i][0]
+                        for n, od in enumerate(MX_FUNC):
+                            if parent not in MX_FUNC[od]:
+                                continue
+                            pin = dict(ginp, func="f_%d" % i, parent=parent, observed_directive=od)
+                            ctx.case("matrix/%s/%s" % (g["pattern"], "function object"), pin, sig=(p["name"], "f", i, od))
+                            got = "MISSING" if o is None else (
+                                {"cython_function_or_method": True, "builtin_function_or_method": False,
+                                 "method_descriptor": False}.get(o[0], "UNDECODABLE") if od == "binding" else o[n])
+                            if got != mnd[od]:
+                                ctx.corr_break("directives:matrix effective " + od, pin, o, mnd[od])
+                            if got != env_f[od]:
+                                src = src or mx_source(p["header_lines"], g["forest"])
+                                ctx.fail("effective_value_" + od, dict(pin, source=src), o, {od: env_f[od]})
+    return specs, finish
+
+
+def run_tables(ctx, T):
+    """the running immediate_decorator_directives against the documented list (Prop C41_immediate_table proves the same
+    over the dump; here each differing name is reported)"""
+    model = ctx.model("directives")
+    docimm = {dec(x) for x in model.batch(["docimm"])[0].split(";")}
+    docbeh = {dec(x) for x in model.batch(["docbeh"])[0].split(";")}
+    for d in sorted(docimm | T["immediate"] | docbeh):
+        ctx.case("tables/immediate", {"directive": d}, sig=("immediate", d))
+        if (d in T["immediate"]) != (d in docimm):
+            ctx.fail("immediate_table_differs_from_documented", {"table": "Options.immediate_decorator_directives", "directive": d},
+                     {"immediate": d in T["immediate"]}, {"immediate": d in docimm})
+
 # ---------------------------------------------------------------- scope legality, (directive, scope) pairs
 COMPILE_WORKER = r"""
 import sys, os, json, io
@@ -950,17 +1300,34 @@ def run_scopes(ctx, T):
     quick = ctx.tier == "quick"
     model = ctx.model("directives")
     # (np_pythran is refused earlier with "can only be used in C++ mode": not observable in a C build)
-    pairs = [(d, c, sc) for d in T["scopes"] if d != "np_pythran" for c, sc in CONTEXTS]
+    docnames = {dec(x) for x in model.batch(["docscn"])[0].split(";")}
+    pairs = [(d, c, sc) for d in sorted(set(T["scopes"]) | docnames, key=lambda d: (d not in T["scopes"], list(T["scopes"]).index(d) if d in T["scopes"] else d))
+             if d != "np_pythran" for c, sc in CONTEXTS]
     pairs += [(d, c, sc) for d in ("cdivision", "boundscheck", "binding", "nonecheck", "profile") for c, sc in CONTEXTS]
     cases = []
     for d, c, sc in pairs:
         src = scope_program(T, d, c)
         if src is not None:
             cases.append((d, c, sc, src))
+    # the documented placement table (M_DirectivesDoc.doc_scopes) is the oracle; every (directive, scope) pair on which
+    # the running directive_scopes differs from it is reported and its program is always compiled
+    dnames = sorted(set(T["scopes"]) | docnames | {x[0] for x in cases})
+    dres = iter(model.batch(["docsc %s %s" % (enc(d), enc(sc)) for d in dnames for _, sc in CONTEXTS]))
+    doc_legal = {(d, sc): next(dres) == "1" for d in dnames for _, sc in CONTEXTS}
+    differ = set()
+    for (d, sc), ok in sorted(doc_legal.items()):
+        run_ok = sc in T["scopes"].get(d, [sc])
+        ctx.case("tables/directive_scopes", {"directive": d, "scope": sc}, sig=("scopes-table", d, sc))
+        if run_ok != ok:
+            differ.add((d, sc))
+            ctx.fail("scope_table_differs_from_documented", {"table": "Options.directive_scopes", "directive": d, "scope": sc},
+                     {"legal": run_ok}, {"legal": ok})
     if quick:
-        illegal = [x for x in cases if x[2] not in T["scopes"].get(x[0], [x[2]])]
-        legal = [x for x in cases if x not in illegal]
-        cases = ctx.rng.sample(illegal, min(21, len(illegal))) + ctx.rng.sample(legal, min(7, len(legal)))
+        must = [x for x in cases if (x[0], x[2]) in differ]
+        rest = [x for x in cases if x not in must]
+        illegal = [x for x in rest if not doc_legal[(x[0], x[2])]]
+        legal = [x for x in rest if x not in illegal]
+        cases = must + ctx.rng.sample(illegal, min(21, len(illegal))) + ctx.rng.sample(legal, min(7, len(legal)))
     NW = 7
     chunks = [cases[i::NW] for i in range(NW)]
     import concurrent.futures as cf
@@ -986,8 +1353,7 @@ def run_scopes(ctx, T):
                 ctx.corr_break("directives:scope error reported but compilation succeeded", inp, res, "failure")
             if rejected == m_ok:
                 ctx.corr_break("directives:scope_ok", inp, {"rejected": rejected, "errors": res["errors"][-300:]}, {"scope_ok": m_ok})
-            legal = T["scopes"].get(d)
-            exp_reject = bool(legal) and sc not in legal
+            exp_reject = not doc_legal[(d, sc)]
             if (exp_reject and res["ok"]) or (not exp_reject and rejected):
                 ctx.fail("scope_violation_not_rejected" if exp_reject else "legal_scope_rejected", inp,
                          {"rejected": rejected, "ok": res["ok"], "errors": res["errors"][-300:]}, {"rejected": exp_reject})
@@ -1002,7 +1368,8 @@ def run(ctx):
     run_scopes(ctx, T)
     t2 = time.time()
     run_nesting(ctx, T)
-    ctx.note("phase wall seconds: coq+tables %.0f, parser %.0f, scope legality %.0f, nestings %.0f" % (
+    run_tables(ctx, T)
+    ctx.note("phase wall seconds: coq+tables %.0f, parser %.0f, scope legality %.0f, nestings+matrix %.0f" % (
         t0 - ctx.t0, t1 - t0, t2 - t1, time.time() - t2))
 
 
@@ -1014,6 +1381,13 @@ def replay(ctx, obj):
              "cur": inp.get("cur"), "name": inp.get("name")}
         r = cybuild.run_script(PARSE_WORKER, os.path.join(ctx.workdir, "parse"), stdin_obj=[c], name="parse_worker.py")
         print("replayed:", json.dumps(c), "->", r["json"], "expected", obj.get("expected"))
+    elif inp.get("matrix") and "source" in inp:      # one placement of the matrix
+        wd = os.path.join(ctx.workdir, "matrix")
+        cybuild.build(inp["program"], inp["source"], wd, directives=dict(inp.get("options") or {}), cflags=["-O0"])
+        r = cybuild.run_script(RUN_MX, wd, name="run_mx.py", args=[inp["program"]])
+        print("replayed:", inp["program"], inp.get("placement"), inp.get("probe") or inp.get("func"), "->",
+              (r["json"] or {}).get("probes", {}).get(inp.get("probe")), (r["json"] or {}).get("funcs", {}).get((inp.get("func") or "")[2:]),
+              "expected", obj.get("expected"))
     elif "source" in inp and "program" in inp:       # a nesting program
         wd = os.path.join(ctx.workdir, "nest")
         opts = dict(inp.get("options") or {})
